@@ -199,8 +199,15 @@ func Main(rep *core.Report, args *core.Args, prop string, stages []Stage) {
 		close(stop)
 		ReplayAll(rep, prop, traces, cfgs, args.Seed)
 	}
+	if Post != nil {
+		Post()
+	}
 	rep.Finish()
 }
+
+// Post, when set, runs after the model-driven stages and before the report is finished (the
+// real-SQLite stage of the checks that have one).
+var Post func()
 
 // ReplayFile re-executes the behaviour stored in a replay file.
 func ReplayFile(rep *core.Report, prop, path string) {
